@@ -105,15 +105,8 @@ structure Res where
   deriving Repr, Inhabited
 
 inductive SErr where
-  | valueError       -- ValueError (documented refusals and "truth value of a Series is ambiguous")
+  | valueError       -- ValueError (documented refusals, unknown BIC type)
   | attributeError   -- rse_theta/… requested but relative_standard_errors is None
-  deriving DecidableEq, Repr, Inhabited
-
-/-- What a sub-expression evaluates to in Python: a bool, or a pandas Series
-    (when the name `rse` has been rebound to the raw Series, see `rseRaw`). -/
-inductive PyVal where
-  | bool : Bool → PyVal
-  | series : PyVal
   deriving DecidableEq, Repr, Inhabited
 
 def Cmp.flip : Cmp → Cmp
@@ -149,16 +142,15 @@ def narr (r : Res) : NAttr → List Val
 
 def isZero (v : Val) : Bool := Val.feq v (.num 0)
 
-/-- Value of a boolean name.  `final_zero_gradient_omega/_sigma` test the
-    *theta* gradients for NaN — as the code does (run.py 1025-1030). -/
+/-- Value of a boolean name. -/
 def battr (r : Res) : BAttr → Bool
   | .minimizationSuccessful => r.minSucc
   | .roundingErrors => r.cause == "rounding_errors"
   | .maxevalsExceeded => r.cause == "maxevals_exceeded"
   | .finalZeroGradient => r.warnings.contains "final_zero_gradient"
   | .fzgTheta => (ofClass .theta r.grd).any isZero || (ofClass .theta r.grd).any Val.isNan
-  | .fzgOmega => (ofClass .omega r.grd).any isZero || (ofClass .theta r.grd).any Val.isNan
-  | .fzgSigma => (ofClass .sigma r.grd).any isZero || (ofClass .theta r.grd).any Val.isNan
+  | .fzgOmega => (ofClass .omega r.grd).any isZero || (ofClass .omega r.grd).any Val.isNan
+  | .fzgSigma => (ofClass .sigma r.grd).any isZero || (ofClass .sigma r.grd).any Val.isNan
   | .estimateNearBoundary => (r.near.map (·.2)).any id
   | .enbTheta => (ofClass .theta r.near).any id
   | .enbOmega => (ofClass .omega r.near).any id
@@ -175,50 +167,26 @@ def SExpr.mentionsN (a : NAttr) : SExpr → Bool
 def SExpr.mentionsRseClass (e : SExpr) : Bool :=
   e.mentionsN .rseTheta || e.mentionsN .rseOmega || e.mentionsN .rseSigma
 
-def truth : PyVal → Except SErr Bool
-  | .bool b => .ok b
-  | .series => .error .valueError
-
-/-- Python's `eval` of the expression.  `rseRaw`: the block for
-    `rse_theta/omega/sigma` rebinds the name `rse` to the raw Series, so
-    `rse op n` yields a Series whose truth value raises. `and`/`or` return
-    an operand (short-circuit), `not` coerces. -/
-def evalS (r : Res) (rseRaw : Bool) : SExpr → Except SErr PyVal
-  | .b a => .ok (.bool (battr r a))
-  | .cmp a op c =>
-    if a == .rse && rseRaw then .ok .series else .ok (.bool (cmpAll op (narr r a) c))
-  | .rcmp c op a =>
-    if a == .rse && rseRaw then .ok .series else .ok (.bool (cmpAll op.flip (narr r a) c))
-  | .and x y =>
-    match evalS r rseRaw x with
-    | .error e => .error e
-    | .ok vx => match truth vx with
-      | .error e => .error e
-      | .ok true => evalS r rseRaw y
-      | .ok false => .ok vx
-  | .or x y =>
-    match evalS r rseRaw x with
-    | .error e => .error e
-    | .ok vx => match truth vx with
-      | .error e => .error e
-      | .ok true => .ok vx
-      | .ok false => evalS r rseRaw y
-  | .not x =>
-    match evalS r rseRaw x with
-    | .error e => .error e
-    | .ok vx => match truth vx with
-      | .error e => .error e
-      | .ok t => .ok (.bool !t)
+/-- Python's `eval` of the expression: every name is bound to a bool or an
+    `ArrayEvaluator`, so every sub-expression is a bool; `and`/`or` return an
+    operand (short-circuit), `not` negates. -/
+def evalS (r : Res) : SExpr → Bool
+  | .b a => battr r a
+  | .cmp a op c => cmpAll op (narr r a) c
+  | .rcmp c op a => cmpAll op.flip (narr r a) c
+  | .and x y => if evalS r x then evalS r y else evalS r x
+  | .or x y => if evalS r x then evalS r x else evalS r y
+  | .not x => !evalS r x
 
 /-- `is_strictness_fulfilled` (strictness `none` = the empty string). -/
-def isStrictnessFulfilled (r : Res) (s : Option SExpr) : Except SErr PyVal :=
-  if r.ofv.isNan then .ok (.bool false)
+def isStrictnessFulfilled (r : Res) (s : Option SExpr) : Except SErr Bool :=
+  if r.ofv.isNan then .ok false
   else match s with
-    | none => .ok (.bool true)
+    | none => .ok true
     | some e =>
       if e.mentionsN .rse && r.rse.isNone then .error .valueError
       else if e.mentionsRseClass && r.rse.isNone then .error .attributeError
-      else evalS r e.mentionsRseClass e
+      else .ok (evalS r e)
 
 /-! ### information criteria (`calculate_aic`, `calculate_bic`) -/
 
@@ -239,7 +207,7 @@ inductive BicType where
 
 inductive RankType where
   | ofv | lrt | aic
-  | bic : Option BicType → RankType     -- `kwargs.get('bic_type')`: None when not given
+  | bic : Option BicType → RankType     -- `kwargs.get('bic_type', 'mixed')`: none = not given
   deriving DecidableEq, Repr, Inhabited
 
 def aic (c : Counts) (likelihood : Val) : Val :=
@@ -258,15 +226,13 @@ def bic (c : Counts) (likelihood : Val) (t : BicType) : Val :=
 def getRankval (r : Res) (c : Counts) (s : Option SExpr) (rt : RankType) : Except SErr Val :=
   match isStrictnessFulfilled r s with
   | .error e => .error e
-  | .ok v => match truth v with
-    | .error e => .error e
-    | .ok false => .ok .nan
-    | .ok true => match rt with
-      | .ofv => .ok r.ofv
-      | .lrt => .ok r.ofv
-      | .aic => .ok (aic c r.ofv)
-      | .bic (some t) => .ok (bic c r.ofv t)
-      | .bic none => .error .valueError
+  | .ok false => .ok .nan
+  | .ok true => match rt with
+    | .ofv => .ok r.ofv
+    | .lrt => .ok r.ofv
+    | .aic => .ok (aic c r.ofv)
+    | .bic (some t) => .ok (bic c r.ofv t)
+    | .bic none => .ok (bic c r.ofv .mixed)
 
 /-! ### likelihood ratio test (`modeling/lrt.py`) -/
 
